@@ -232,7 +232,7 @@ Print Assumptions impl_context_restored_after_call.
 
 (* `return self;` of a primitive self returns the receiver's value (fixed by 5e201e9). *)
 Theorem return_self_returns_receiver : forall run hs fe t v arg st,
-  m_body (fe_meth fe) = [] -> m_ret (fe_meth fe) = ESelf -> m_void (fe_meth fe) = false ->
+  m_body (fe_meth fe) = [] -> m_ret (fe_meth fe) = ESelf -> m_void (fe_meth fe) = false -> int_ok v = true ->
   exists fr', run_method_g run hs fe t (PPrim v) arg st = inl (fr', v).
 Proof. exact return_self_returns_receiver_l. Qed.
 Print Assumptions return_self_returns_receiver.
